@@ -16,7 +16,7 @@ from math import comb
 import featlib
 from featlib import Check, rel
 import symex
-from symex import SymEx, Poly, Loc, NotClosedForm, leaf_name, loc_name
+from symex import SymEx, PredEx, Poly, Loc, NotClosedForm, leaf_name, loc_name
 from cfold import Folder, Num, NotConstant
 
 F = featlib.repo_path
@@ -244,6 +244,8 @@ def run(tier):
     ck.rule("E11.trafo-hessian", "Trafo::Standard::Evaluator: calc_hess_ten(i,j,k) = d^2 map_point_i / d dom_j d dom_k, all entries assigned", 100)
     ck.rule("E11.trafo-vertex-map", "Trafo::Standard::Evaluator: after prepare(cell), map_point(reference vertex k) is exactly the mesh vertex index_set<dim,0>(cell,k), coordinate by coordinate (coefficient definitions substituted; reference vertices from Shape::ReferenceCell)", 83)
     ck.rule("E11.chain-rule", "ParametricEvalHelper: value = ref_value; grad_j = sum_k ref_grad_k * jac_inv(k,j); hess_ab = sum_kl ref_hess_kl jac_inv(k,a) jac_inv(l,b) + sum_k ref_grad_k hess_inv(k,a,b), for every slot below max_local_dofs; TrafoEvalHelper::calc_hess_inv(k,a,b) = - sum_c jac_inv(k,c) sum_lm hess_ten(c,l,m) jac_inv(l,a) jac_inv(m,b) (operands and index order)", 43)
+
+    ck.rule("E13.is-on-ref", "InverseMappingHelper<Shape>::is_on_ref(p, tol) (the accept test of InverseMapping::unmap_point): the accepted set, extracted as a conjunction of affine inequalities in p and tol, contains the closed reference cell of Shape::ReferenceCell for every tol >= 0 (every reference vertex satisfies every inequality; the set is convex) and only grows with tol (no inequality gets tighter when tol increases); otherwise points on a facet/vertex of a cell are dropped by unmap_point", 12)
 
     facts = featlib.extract("tu/c15_spaces.cpp", files=FILES)
     ck.tu(facts)
@@ -636,6 +638,9 @@ def analyse(ck, facts, tier, covered, not_covered, primary=True):
     # ---- chain rule -----------------------------------------------------------------------------------------
     check_chain_rule(ck, facts, tag)
 
+    # ---- reference-cell predicate of the inverse mapping ---------------------------------------------------------
+    check_is_on_ref(ck, facts, refcell, tag)
+
 
 def decode_layout(idx, dim):
     """idx: {k: poly} of global indices of local dof k.  -> ([(c,i,j)] per k, problems)"""
@@ -965,3 +970,44 @@ def check_chain_rule(ck, facts, tag):
         if other:
             problems.append("other trafo data written: %s" % other[:2])
         ck.ob("E11.chain-rule", tag + "TrafoEvalHelper::calc_hess_inv/%d" % dim, not problems, "; ".join(problems[:2]) if problems else "all %d^3 entries" % dim, f.file, f.line)
+
+
+def check_is_on_ref(ck, facts, refcell, tag):
+    fs = {}
+    for f in facts.find(name="is_on_ref"):
+        m = re.match(r"^FEAT::Trafo::Intern::InverseMappingHelper<FEAT::Shape::(\w+<\d>)>$", f.cls)
+        if m and f.tk != "pattern" and len(f.params) == 2:
+            fs.setdefault(m.group(1), f)
+    for sh, f in sorted(fs.items()):
+        dim = shape_dim(sh)
+        key = "is_on_ref/%s" % sh
+        px = PredEx([facts])
+        try:
+            px.run(f, this=None)
+            atoms = px.atoms()
+            verts = refcell.vertices(sh)
+        except NotClosedForm as e:
+            ck.incomplete("E13.is-on-ref", "%s%s: %s" % (tag, key, e))
+            continue
+        X = [leaf_name("P0", i) for i in range(dim)]
+        TOL = "P1"
+        allowed = set(X) | {TOL}
+        bad_form = [str(L) for st, L in atoms if L.degree() > 1 or not L.symbols() <= allowed]
+        if bad_form or not atoms:
+            ck.incomplete("E13.is-on-ref", "%s%s: accept condition is not affine in the point and the tolerance: %s" % (tag, key, bad_form[:2] or "no condition"))
+            continue
+        cprob, mprob = [], []
+        for st, L in atoms:
+            rel_s = "%s %s 0" % (L, ">" if st else ">=")
+            ct = L.diff(TOL).const_value()
+            if ct < 0:
+                mprob.append("the accept condition %s becomes tighter when tol grows (coefficient of tol = %s)" % (rel_s, ct))
+            for k, v in enumerate(verts):
+                at = L.subs(dict(zip(X, v)))
+                c0 = at.subs({TOL: 0}).const_value()
+                c1 = at.diff(TOL).const_value()
+                if c0 < 0 or c1 < 0 or (st and c0 == 0):
+                    cprob.append("reference vertex %d = %s violates %s for %s (condition at the vertex: %s %s 0)" % (k, tuple(map(str, v)), rel_s, "tol = 0" if c0 < 0 or (st and c0 == 0) else ("every tol > %s" % (c0 / -c1)), at, ">" if st else ">="))
+        ck.ob("E13.is-on-ref", tag + key + "/contains-cell", not cprob, "; ".join(cprob[:2]) if cprob else "all %d reference vertices satisfy the %d accept inequalities for every tol >= 0" % (len(verts), len(atoms)), f.file, f.line,
+              sample={"accept": ["%s %s 0" % (L, ">" if st else ">=") for st, L in atoms][:6]})
+        ck.ob("E13.is-on-ref", tag + key + "/monotone-in-tol", not mprob, "; ".join(mprob[:2]) if mprob else "no inequality tightens with tol", f.file, f.line)
